@@ -108,4 +108,26 @@ theorem channel_limit_counterexample :
       [.subMapValidate 4 2, .subMapValidate 5 2, .mapReserve 4, .mapCommit 4 1, .mapReserve 5, .mapCommit 5 2]).clientSubs
       = 2 := by decide
 
+/-- examined, not a finding: server-side `Client.Subscribe` compares `len(c.channels)` alone with the
+limit, so a map subscription that is still loading (entry in `mapSubscribing`) is not counted and the
+connection can end up with `limit + 1` entries — of which only `limit` are client-side, so the statement
+("never more *client-side* subscriptions than the limit") still holds on this trace -/
+example :
+    let s := run { limit := 2, maxLen := 0 } [.subReg 1 2, .complete 1 1 true, .subMapValidate 2 2, .mapReserve 2,
+      .serverSub 3, .mapCommit 2 2]
+    s.total = 3 ∧ s.clientSubs = 2 := by decide
+
 end CentrifugeVerif.Limits
+
+namespace CentrifugeVerif.Writer
+
+/-- **Slow consumer** (the third conjunct of C37; same statement as C12's `slow_iff_oversize`): an
+enqueue on a connection is answered `DisconnectSlow` — and the client then closes the connection as slow
+— exactly when `ClientQueueMaxSize > 0` and the pending outgoing bytes at the moment of the check
+exceed it. -/
+theorem slow_consumer_iff_over_queue_limit (c : Cfg) (hc : 0 < c.initCap) (w : W) (hr : Reachable c w)
+    (xs : List Queue.Item) (res : Res) (queued : Nat) (hm : (xs, res, queued) ∈ w.results) :
+    res = .slow ↔ (0 < c.maxQueueSize ∧ c.maxQueueSize < queued) :=
+  slow_iff_oversize c hc w hr xs res queued hm
+
+end CentrifugeVerif.Writer
